@@ -626,7 +626,8 @@ def stage_sweep(ctx, rec, aead):
                 ctx.count('sweep.breaker')
                 break
             gex_old = spec[0] == 'gex_old'
-            force = fam == 'gex' and spec[0] == 'kex' and spec[1:4] == ['c', 0, 0]
+            force = (fam == 'gex' and spec[0] == 'kex' and spec[1:4] == ['c', 0, 0] and
+                     (thorough or kex == [k for k in methods if W.family_of(k) == 'gex'][0]))
             rec.gex_old = old_form
             try:
                 r = sshutil.run(W.run_session(cfg, None if gex_old else make_edit(spec, fam, kex.encode()), rec), timeout=120)
@@ -647,13 +648,15 @@ def stage_sweep(ctx, rec, aead):
             exact = (not gex_old) and is_exact(fam, spec)
             same = W.bound_part(vc) == W.bound_part(vs)
             ctx.note_case(('sweep', kex, tuple(map(str, spec))), nontrivial=True)
-            if (force or len(sweep_cases) < (4000 if thorough else 450)) and (exact or completed):
+            if (force or len(sweep_cases) < (4000 if thorough else 340)) and (exact or completed):
                 sweep_cases.append('(%s, %s, %s, %s)' % (coq_view(vc, 'c'), coq_diffs(vc, vs), cbool(completed), cbool(exact)))
                 sweep_meta.append((kex, spec, completed, same))
             # the bytes each side really hashed, under the edit
-            if force or (len(hcases) < (2500 if thorough else 260) and (spec[0] != 'byte' or completed)
+            if force or (len(hcases) < (2500 if thorough else 190) and (spec[0] != 'byte' or completed)
                          and (thorough or spec[0] != 'kexinit' or rng.random() < 0.3)):
                 for who, v in (('c', vc), ('s', vs)):
+                    if force and who == 'c' and not thorough and len(hcases) % 4:
+                        continue               # the received request is the server's business
                     hc = hash_cases(r, who, v)
                     if hc:
                         hcases.append(hc[0])
@@ -752,7 +755,7 @@ def stage_entries(ctx, rec, aead):
                 exact = spec is None or is_exact(fam, spec)
                 ctx.note_case(('entry', entry, kex, tuple(map(str, spec or ()))), nontrivial=spec is not None)
                 ctx.count('entry.%s.%s' % (entry, 'delivered' if delivered else 'failed'))
-                if (entry == 'host_key' or delivered) and len(cases) < (1500 if thorough else 170) and (exact or delivered):
+                if (entry == 'host_key' or delivered) and len(cases) < (1500 if thorough else 120) and (exact or delivered):
                     keyv = r.value if entry == 'host_key' and isinstance(r.value, bytes) else None
                     cases.append('(%s, %s, %s, %s, %s)' % (coq_view(vc, 'c'), coq_diffs(vc, vs), cbool(delivered),
                                                            copt(keyv, hx), cbool(exact)))
